@@ -35,6 +35,7 @@ def run(rep, prog, tier):
     rep.rule('C03.6', 'compress/decompress arms are inverse pairs for every algorithm', floor=4)
     rep.rule('C03.7', 'one cipher and one session key reach both the ESK packet and the container', floor=4)
     rep.rule('C03.8', 'session-key list consumers filter by class', floor=3)
+    rep.rule('C03.9', 'packet length codec of encrypted (also streamed, partial-length) messages: the C09 partial-length rule under this id', floor=1)
     rep.assume('cryptography CFB / RSA PKCS#1 v1.5 / ECDH / AES key wrap / ConcatKDF and zlib/bz2 are correct (trusted base)')
 
     pkesk(rep, prog)
@@ -46,12 +47,37 @@ def run(rep, prog, tier):
     families.check_operation_wiring(rep, prog, 'C03.7')
     families.check_readdressing(rep, prog, 'C03.7')
     families.check_candidate_search(rep, prog, 'C03.8')
+    families.check_encrypters_current(rep, prog, 'C03.8')
+    # encrypted messages of other implementations arrive as streams (partial body lengths): the header length codec decides whether
+    # their containers are read whole - the C09 rule families for it, reported under C03.9
+    from rules import C09
+    px = _Relabel(rep, 'C03.9')
+    B9 = C09.Bench(px, prog)
+    C09.partial(px, prog, B9)
     # the passphrase packet is only interoperable if the S2K it carries is the RFC 4880 3.7.1 function (shared with C12.1 / C06.8)
     from rules import C12
     C12.check_derive_key(rep, prog, 'C03.3', 'C03.3')
     decrypt_wiring(rep, prog)
     families.check_sessionkey_consumers(rep, prog, 'C03.8')
     families.check_pkesk_selection(rep, prog, 'C03.8')
+
+
+class _Relabel(object):
+    """Re-labels the rule id of a shared rule family (same device as rules/C08.py)."""
+    def __init__(self, rep, rid):
+        self.rep, self.rid = rep, rid
+
+    def __getattr__(self, k):
+        return getattr(self.rep, k)
+
+    def check(self, cond, rid, *a, **kw):
+        return self.rep.check(cond, self.rid, *a, **kw)
+
+    def violation(self, rid, *a, **kw):
+        return self.rep.violation(self.rid, *a, **kw)
+
+    def ok(self, rid, *a, **kw):
+        return self.rep.ok(self.rid, *a, **kw)
 
 
 def _events_order(s, first, second):
